@@ -6,7 +6,6 @@ package main
 //
 // Class labels (decidable from the template, not from the outcome):
 //   ""              inside the domain of the isolation theorem
-//   go-funclit-loop `go func(){…}()` executed again in the same frame while an earlier activation is still running (F08-6)
 
 import (
 	"fmt"
@@ -349,7 +348,7 @@ func tClosureLoop(r *rand.Rand) Tmpl {
 		a = append(a, fmt.Sprint(i*i+1))
 		b = append(b, fmt.Sprint(i*3))
 	}
-	return Tmpl{Name: "closure-loop", Class: "go-funclit-loop", Kind: "prog", Expect: "[" + strings.Join(a, " ") + "]\n[" + strings.Join(b, " ") + "]\n", Src: fmt.Sprintf(`package main
+	return Tmpl{Name: "closure-loop", Kind: "prog", Expect: "[" + strings.Join(a, " ") + "]\n[" + strings.Join(b, " ") + "]\n", Src: fmt.Sprintf(`package main
 
 import (
 	"fmt"
@@ -824,7 +823,7 @@ func tGoBinNoReassign(r *rand.Rand) Tmpl {
 	for i := 0; i < w; i++ {
 		sum += i * 11
 	}
-	return Tmpl{Name: "go-bin-call", Class: "go-funclit-loop", Kind: "prog", Expect: fmt.Sprintf("n %d sum %d\n", w, sum), Src: fmt.Sprintf(`package main
+	return Tmpl{Name: "go-bin-call", Kind: "prog", Expect: fmt.Sprintf("n %d sum %d\n", w, sum), Src: fmt.Sprintf(`package main
 
 import (
 	"fmt"
